@@ -3,14 +3,16 @@
 
    What is proved: the five mechanisms the round trip rests on (each unbounded), the ONE-CABLE
    pipeline (writer's per-bit nets of any bus, in any order, through the reader's name splitting and
-   multibit merge give the cable back), and two refutations of the round trip for inputs inside the
+   multibit merge give the cable back), the ONE-CELL net pipeline (all cables of a cell, written in
+   order, read back by the reader's net loop with its lookups and fallbacks), and two refutations of the round trip for inputs inside the
    property's quantifier (bus whose identifier starts with "&_"; scalar net named like a bit).
    What is NOT proved: the whole-file statement [C03_full] (libraries, cells, ports, instances,
    reference resolution, rename bookkeeping, identifier assignment). It is evaluated on the
    implementation by harness/edif_check.py (test evidence, not proof). *)
 From Coq Require Import List NArith Bool Permutation.
-From SV Require Import Base.Base Fmt.EdifTopo Fmt.EdifLex Fmt.EdifName Fmt.EdifCable Fmt.EdifBus
-  Proofs.EdifTopoProofs Proofs.EdifLexProofs Proofs.EdifNameProofs Proofs.EdifCableProofs Proofs.EdifBusProofs.
+From SV Require Import Base.Base Fmt.EdifTopo Fmt.EdifLex Fmt.EdifName Fmt.EdifCable Fmt.EdifBus Fmt.EdifNets
+  Proofs.EdifTopoProofs Proofs.EdifLexProofs Proofs.EdifNameProofs Proofs.EdifCableProofs Proofs.EdifBusProofs
+  Proofs.EdifNetsProofs.
 Import ListNotations.
 
 (* (a) _topological_sort: on acyclic, closed input the fuel suffices, the output is a permutation
@@ -146,6 +148,25 @@ Print Assumptions C03_scalar_roundtrip.
 
 Example C03_cable_roundtrip_example : ltac:(let t := type of bus_roundtrip_example in exact t).
 Proof. exact bus_roundtrip_example. Qed.
+
+(* ALL CABLES OF ONE CELL through the writer (in order, each bus bit by bit) and back through the
+   reader's net loop (lookup by name, then by identifier, merge or add, ValueError fallback): same
+   cables, same order, names, identifiers, lower indices and per-bit pins; buses flagged as arrays.
+   [wf_cell]: names pairwise different, identifiers pairwise different case-insensitively, every
+   bus has an identifier that is not "&"/"&_..." and a name not starting with a backslash, every
+   scalar net has lower 0 and is not named like a bit. (Names with * or ? are outside the model.) *)
+Theorem C03_cell_nets_roundtrip : forall P (cabs : list (entry P)), wf_cell cabs ->
+  read_nets [] (emit_nets cabs) = Some (map norm_entry cabs).
+Proof. exact cell_nets_roundtrip. Qed.
+Print Assumptions C03_cell_nets_roundtrip.
+
+Example C03_cell_nets_example : ltac:(let t := type of cell_nets_example in exact t).
+Proof. exact cell_nets_example. Qed.
+(* outside wf_cell the round trip fails: *)
+Example C03_cell_nets_collision_bitlike : ltac:(let t := type of cell_nets_collision_bitlike in exact t).
+Proof. exact cell_nets_collision_bitlike. Qed.
+Example C03_cell_nets_collision_ident : ltac:(let t := type of cell_nets_collision_ident in exact t).
+Proof. exact cell_nets_collision_ident. Qed.
 
 (* REFUTATIONS inside the property's quantifier (both replayed on the implementation by the
    check: corpus/edif/c03-amp-underscore-bus.json, c03-bitlike-scalar.json):
